@@ -2,6 +2,7 @@ package main
 
 import (
 	"fmt"
+	"go/token"
 	"sort"
 	"strings"
 
@@ -129,6 +130,14 @@ func checkC05(c *Ctx) {
 								// append of an element taken from P or Q
 								if d := descValue(call.Call.Args[1], 0); d == wantP || d == wantQ {
 									appends = append(appends, in)
+								} else {
+									// append(pairs, pair{p: P[k], q: Q[k]}): the pair kept as one record
+									for _, leaf := range appendedLeafValues(call.Call.Args[1]) {
+										if d := "[" + descValue(leaf, 0) + "]"; d == wantP || d == wantQ {
+											appends = append(appends, in)
+											break
+										}
+									}
 								}
 							}
 						}
@@ -283,4 +292,50 @@ func tableIdentity(v ssa.Value) string {
 		return "param:" + x.Name()
 	}
 	return ""
+}
+
+// appendedLeafValues: the values stored into the element(s) of the variadic argument of an append,
+// looking into a struct literal built in place or in a temporary.
+func appendedLeafValues(v ssa.Value) []ssa.Value {
+	sl, ok := v.(*ssa.Slice)
+	if !ok {
+		return nil
+	}
+	al, ok := sl.X.(*ssa.Alloc)
+	if !ok || al.Referrers() == nil {
+		return nil
+	}
+	var out []ssa.Value
+	var fieldsOf func(addr ssa.Value)
+	fieldsOf = func(addr ssa.Value) {
+		refs := addr.Referrers()
+		if refs == nil {
+			return
+		}
+		for _, r := range *refs {
+			switch x := r.(type) {
+			case *ssa.Store:
+				if x.Addr != addr {
+					continue
+				}
+				if ld, isLoad := x.Val.(*ssa.UnOp); isLoad && ld.Op == token.MUL {
+					if tmp, isAlloc := ld.X.(*ssa.Alloc); isAlloc {
+						fieldsOf(tmp)
+						continue
+					}
+				}
+				out = append(out, x.Val)
+			case *ssa.FieldAddr:
+				if x.X == addr {
+					fieldsOf(x)
+				}
+			}
+		}
+	}
+	for _, r := range *al.Referrers() {
+		if ia, ok := r.(*ssa.IndexAddr); ok {
+			fieldsOf(ia)
+		}
+	}
+	return out
 }
